@@ -17,7 +17,7 @@ GEN_VERSION = 1
 
 # one fixed, distinctive value per context key (all different from every processor default)
 KEY_VALUES: Dict[str, Any] = {
-    "a": 1.5, "b": 2.5, "r": 4.0, "factor": 5.0, "addend": 0.75, "path": "p_ctx.txt", "value": 9.0, "gain": 1.25,
+    "a": 1.5, "b": 2.5, "r": 4.0, "factor": 5.0, "addend": 0.75, "path": "p_ctx.txt", "value": 9.0, "gain": 1.25, "offset": 0.375,
     "zz": 0.125, "items": [1.0, 2.5], "p.q": 3.5, "tagsrc": "T0", "nest": {"limits": {"hi": 7, "lo": 1}, "alpha": 2},
 }
 
@@ -64,6 +64,9 @@ SYMBOLS: Dict[str, dict] = {
     "add": dict(node=_n("VAdd"), kind="op", proc="VAdd", params=[("addend", NODEF)], cfg={}, reads=["addend"]),
     "two": dict(node=_n("VTwo"), kind="op", proc="VTwo", params=[("factor", NODEF), ("addend", 0.5)], cfg={}, reads=["factor", "addend"]),
     "two_cfg": dict(node=_n("VTwo", {"addend": 0.25}), kind="op", proc="VTwo", params=[("factor", NODEF), ("addend", 0.5)], cfg={"addend": 0.25}, reads=["factor", "addend"]),
+    # four parameters resolved from the context by ONE node (whatever lists them has 24 possible orders)
+    "five_cfg": dict(node=_n("VFive", {"bias": 0.5}), kind="op", proc="VFive", params=[("factor", NODEF), ("addend", NODEF), ("offset", NODEF), ("gain", NODEF), ("bias", NODEF)],
+                     cfg={"bias": 0.5}, reads=["factor", "addend", "offset", "gain"]),
     # keyword-only parameters (declared after a bare * in _process_logic) resolve like any other
     "kwmul": dict(node=_n("VKwMul"), kind="op", proc="VKwMul", params=[("factor", NODEF)], cfg={}, reads=["factor"]),
     "kwmul3": dict(node=_n("VKwMul", {"factor": 3.0}), kind="op", proc="VKwMul", params=[("factor", NODEF)], cfg={"factor": 3.0}, reads=["factor"]),
